@@ -597,3 +597,754 @@ def compare_case(specs, locale, rel, ref_keys, l10n_keys, fmt):
                 "classes": nontrivial, "verdicts": ["".join(ACT[a] for a in v) for v in per_obs]}
     finally:
         shutil.rmtree(root, ignore_errors=True)
+
+
+# ------------------------------------------------------------------ round 4: the quiet level as a dimension
+# filter -> Observer(quiet) -> ContentComparer(quiet) on real files, quiet 0..4, with and without merge
+JUNK_LINE = {"properties": "junk line\n", "ftl": "junk line\n", "dtd": "<!ENTITY broken>\n", "ini": "junk\n"}
+CAT_CODE = {"error": "e", "warning": "w", "missingEntity": "me", "obsoleteEntity": "oe", "missingFile": "mf", "obsoleteFile": "of"}
+STAT_KEYS = ("errors", "warnings", "missing", "missing_w", "report", "obsolete", "changed", "changed_w", "unchanged",
+             "unchanged_w", "keys")
+SHOWS = {"missingEntity": 2, "obsoleteEntity": 1, "error": 4, "warning": 3}     # listed iff quiet < this
+
+
+def items_text(fmt, items):
+    out = ["[Strings]\n"] if fmt == "ini" else []
+    for it in items:
+        if it[0] == "junk":
+            out.append(JUNK_LINE[fmt])
+        elif fmt == "dtd":
+            out.append('<!ENTITY %s "%s">\n' % (it[1], it[2]))
+        elif fmt == "ini":
+            out.append("%s=%s\n" % (it[1], it[2]))
+        else:
+            out.append("%s = %s\n" % (it[1], it[2]))
+    return "".join(out)
+
+
+def addremove_order(left, right):
+    """the documented order of AddRemove (C20): the reference order, every item that is only in the localization
+    right after the last common item that precedes it there; -> [(action, key)]"""
+    pos = {k: (i, -1) for i, k in enumerate(left)}
+    off = -1
+    rset = set()
+    for i, k in enumerate(right):
+        rset.add(k)
+        if k in pos and pos[k][1] == -1:
+            off = pos[k][0]
+        else:
+            pos.setdefault(k, (off, i))
+    lset = set(left)
+    out = []
+    for k in sorted(pos, key=lambda k: pos[k]):
+        out.append(("both" if k in lset and k in rset else ("delete" if k in lset else "add"), k))
+    return out
+
+
+def tcode(s):
+    return "t" + ".".join(str(ord(c)) for c in s)
+
+
+def obs_str(o, l10n, locale):
+    s = o.summary.get(locale)
+    sm = "-" if s is None else ":".join(str(s[k]) for k in STAT_KEYS)
+    dets = []
+    for d in o.details[l10n]:
+        (cat, data), = d.items()
+        dets.append("%s:d%s" % (CAT_CODE[cat], tcode(data)))
+    return sm + ("!E" if o.error else "") + "[" + ",".join(dets) + "]"
+
+
+def compareq_case(specs, locale, rel, ref_items, l10n_items, fmt):
+    """returns {"runs": {quiet: canonical}, "lines": {quiet: driver line}, "oracle": [...], ...}"""
+    from compare_locales.compare.content import ContentComparer
+    from compare_locales.compare.observer import Observer
+    from compare_locales.paths import File
+    from compare_locales import parser as P
+    import io
+    import contextlib
+    root = tempfile.mkdtemp(prefix="c14q-")
+    try:
+        specs = [subst_root(s, root) for s in specs]
+        refpath = "%s/en-US/%s" % (root, rel)
+        l10npath = "%s/%s/%s" % (root, locale, rel)
+        mergepath = "%s/merge/%s/%s" % (root, locale, rel)
+        for pth, items in ((refpath, ref_items), (l10npath, l10n_items)):
+            os.makedirs(os.path.dirname(pth), exist_ok=True)
+            with open(pth, "w", encoding="utf-8") as f:
+                f.write(items_text(fmt, items))
+        # the entity lists (input of the model: what the parsers yield), independent of compare()
+        seqs = []
+        for pth in (refpath, l10npath):
+            p = P.getParser(rel)
+            p.readFile(pth)
+            seqs.append([(e.key, isinstance(e, P.Junk), 0 if isinstance(e, P.Junk) else e.count_words()) for e in p.parse()])
+        refs, l10ns = seqs
+        refinfo = {k: (j, w) for k, j, w in refs}
+        l10ninfo = {k: j for k, j, w in l10ns}
+        plan = addremove_order([k for k, _, _ in refs], [k for k, _, _ in l10ns])
+        can_merge = fmt in CAN_MERGE_FORMATS
+        results = {}
+        for quiet in range(5):
+            for merge in (True, False):
+                if os.path.exists(os.path.dirname(mergepath)):
+                    shutil.rmtree(os.path.dirname(mergepath), ignore_errors=True)
+                ref = File(refpath, rel, locale=None)
+                l10n = File(l10npath, rel, locale=locale)
+                cc = ContentComparer(quiet=quiet)
+                observers = []
+                for s in specs:
+                    o = Observer(quiet=quiet, filter=build(s).filter) if s is not None else Observer(quiet=quiet)
+                    observers.append(o)
+                    cc.observers.append(o)
+                log, stats, merged_arg = [], [], []
+                orig_notify, orig_stats, orig_merge = cc.observers.notify, cc.observers.updateStats, cc.merge
+
+                def notify(cat, file, data, _o=orig_notify):
+                    rv = _o(cat, file, data)
+                    log.append((cat, data, rv))
+                    return rv
+
+                def update(file, st, _o=orig_stats):
+                    stats.append(dict(st))
+                    return _o(file, st)
+
+                def mrg(ref_entities, ref_file, l10n_file, merge_file, missing, *a, _o=orig_merge):
+                    merged_arg.append(list(missing))
+                    return _o(ref_entities, ref_file, l10n_file, merge_file, missing, *a)
+
+                cc.observers.notify, cc.observers.updateStats, cc.merge = notify, update, mrg
+                with contextlib.redirect_stdout(io.StringIO()):
+                    cc.compare(ref, l10n, mergepath if merge else None)
+                merged_file = None
+                if merge and os.path.exists(mergepath):
+                    p = P.getParser(rel)
+                    p.readFile(mergepath)
+                    merged_file = [e.key for e in p.parse()]
+                results[(quiet, merge)] = {"log": log, "stats": stats[0] if len(stats) == 1 else None,
+                                           "missings": merged_arg[0] if merged_arg else None, "merged_file": merged_file,
+                                           "own": obs_str(cc.observers, l10n, locale),
+                                           "obs": [obs_str(o, l10n, locale) for o in observers],
+                                           "sums": [o.summary.get(locale) for o in observers],
+                                           "details": [[d for d in o.details[l10n]] for o in [cc.observers] + observers]}
+        base = results[(0, True)]
+        msgs = []
+        # ---- events: structure from the plan (independent), message texts / checker notes from the notifications
+        evs, li = [], 0
+        blog = base["log"]
+        ok_struct = True
+        for action, k in plan:
+            if action == "both":
+                while li < len(blog) and blog[li][0] in ("error", "warning") and isinstance(blog[li][1], str) \
+                        and blog[li][1].endswith(" for %s" % k):
+                    evs.append(("n", CAT_CODE[blog[li][0]], blog[li][1]))
+                    li += 1
+                continue
+            if li >= len(blog):
+                ok_struct = False
+                break
+            cat, data, _ = blog[li]
+            if action == "delete":
+                junk, words = refinfo[k]
+                want = ("warning", None) if junk else ("missingEntity", k)
+                evs.append(("j", data) if junk else ("m", k, words))
+            else:
+                junk = l10ninfo[k]
+                want = ("error", None) if junk else ("obsoleteEntity", k)
+                evs.append(("J", data) if junk else ("o", k))
+            if cat != want[0] or (want[1] is not None and data != want[1]):
+                ok_struct = False
+                break
+            li += 1
+        if not ok_struct or li != len(blog):
+            msgs.append("notifications do not follow the key order: %r" % ([(c, d) for c, d, _ in blog],))
+        # ---- oracle 1 (by construction): nothing but the listed details depends on quiet / merge
+        for (quiet, merge), r in sorted(results.items()):
+            tag = "quiet=%d merge=%s" % (quiet, merge)
+            if [x[2] for x in r["log"]] != [x[2] for x in blog] or [x[:2] for x in r["log"]] != [x[:2] for x in blog]:
+                msgs.append("%s: verdicts returned by notify differ from quiet=0: %r vs %r" % (
+                    tag, [x[2] for x in r["log"]], [x[2] for x in blog]))
+            if r["stats"] != base["stats"]:
+                msgs.append("%s: counts differ from quiet=0: %r vs %r" % (tag, r["stats"], base["stats"]))
+            if r["sums"] != base["sums"] or r["own"].split("[")[0] != base["own"].split("[")[0]:
+                msgs.append("%s: summaries differ from quiet=0: %r vs %r" % (tag, r["sums"], base["sums"]))
+            if merge and (r["missings"] != base["missings"] or r["merged_file"] != base["merged_file"]):
+                msgs.append("%s: merged keys differ from quiet=0: %r vs %r" % (tag, r["missings"], base["missings"]))
+            for d0, dq in zip(base["details"], r["details"]):
+                it = iter(d0)
+                if not all(any(x == y for y in it) for x in dq):
+                    msgs.append("%s: details are not a sub-sequence of the details at quiet=0" % tag)
+            if quiet > 0 and merge:
+                prev = results[(quiet - 1, True)]["details"]
+                if any(len(a) < len(b) for a, b in zip(prev, r["details"])):
+                    msgs.append("%s: more details than at quiet=%d" % (tag, quiet - 1))
+        # ---- oracle 2: counts against the reference interpreter, at every quiet level
+        fdesc = {"fullpath": l10npath, "locale": locale}
+        per_obs = None
+        if len(specs) == 1 and specs[0] is not None:
+            mk = [e[1] for e in evs if e[0] == "m"]
+            ok_ = [e[1] for e in evs if e[0] == "o"]
+            vm = [ref_verdict(specs[0], fdesc, k) for k in mk]
+            vo = [ref_verdict(specs[0], fdesc, k) for k in ok_]
+            per_obs = vm + vo
+            n_err, n_warn = vm.count("error"), vm.count("warning")
+            n_obs = sum(1 for a in vo if a != "ignore")
+            for (quiet, merge), r in sorted(results.items()):
+                tag = "quiet=%d merge=%s" % (quiet, merge)
+                st = r["stats"]
+                if st is None:
+                    msgs.append("%s: updateStats not called exactly once" % tag)
+                    continue
+                if (st["missing"], st["report"], st["obsolete"]) != (n_err, n_warn, n_obs):
+                    msgs.append("%s: counts missing=%d report=%d obsolete=%d, expected %d (error keys) %d (warning keys) %d (non-ignored obsolete keys)" % (
+                        tag, st["missing"], st["report"], st["obsolete"], n_err, n_warn, n_obs))
+                if merge and r["missings"] is not None and r["missings"] != [k for k, a in zip(mk, vm) if a == "error"]:
+                    msgs.append("%s: keys handed to the merge %r, expected the error keys %r" % (
+                        tag, r["missings"], [k for k, a in zip(mk, vm) if a == "error"]))
+                if merge and can_merge and r["merged_file"] is not None:
+                    for k, a in zip(mk, vm):
+                        if a != "error" and k in r["merged_file"]:
+                            msgs.append("%s: %s-level missing key %r is merged" % (tag, a, k))
+                        if a == "error" and k not in r["merged_file"]:
+                            msgs.append("%s: error-level missing key %r is not merged" % (tag, k))
+                shown = [list(d.values())[0] for d in r["details"][1] if "missingEntity" in d]
+                exp_shown = [k for k, a in zip(mk, vm) if a != "ignore"] if quiet < SHOWS["missingEntity"] else []
+                if quiet == 0 and shown != exp_shown:
+                    msgs.append("%s: listed missing keys %r, expected the non-ignored ones %r" % (tag, shown, exp_shown))
+        # ---- canonical strings / driver lines, one per quiet level (merge run; the no-merge run must print the same but M)
+        locales = sorted(set().union(*[all_locales_of(s, set()) for s in specs if s is not None], {locale}))
+        w = Wire(locales, [l10npath])
+        head = w.universe()
+        cfgt = [str(len(specs))]
+        for s in specs:
+            cfgt += ["F"] if s is None else w.cfg(s)
+        evt = [str(len(evs))]
+        for e in evs:
+            if e[0] == "m":
+                evt += ["m", enc(e[1]), str(e[2])]
+            elif e[0] == "n":
+                evt += ["n", e[1], enc(e[2])]
+            else:
+                evt += [e[0], enc(e[1])]
+        st0 = base["stats"] or {}
+        both = [str(st0.get(k, 0)) for k in ("changed", "changed_w", "unchanged", "unchanged_w", "keys")]
+        mkeys = [e[1] for e in evs if e[0] == "m"]
+        idx = {k: i for i, k in enumerate(mkeys)}
+        lines, canon = {}, {}
+        for quiet in range(5):
+            lines[quiet] = " ".join(["c14.compareq"] + head + [str(quiet)] + cfgt + [str(w.lidx[locale]), "0", enc(rel)] + evt + both)
+            for merge in (True, False):
+                r = results[(quiet, merge)]
+                st = r["stats"] or {}
+                canon[(quiet, merge)] = "ok m=%s mw=%s r=%s o=%s M=%s V=%s own=%s obs=%s" % (
+                    st.get("missing"), st.get("missing_w"), st.get("report"), st.get("obsolete"),
+                    ",".join(str(idx.get(k, "?")) for k in r["missings"]) if r["missings"] is not None else "n/a",
+                    "".join(ACT.get(x[2], "?") for x in r["log"]), r["own"], "|".join(r["obs"]))
+        # ---- whole files: ContentComparer.add (missing file) / .remove (obsolete file) at every quiet level
+        n_ents = sum(1 for k, j, w_ in refs if not j)
+        n_words = sum(w_ for k, j, w_ in refs if not j)
+        fcanon, flines, fres = {}, {}, {}
+        for quiet in range(5):
+            parts = []
+            for what in ("add", "remove"):
+                ref = File(refpath, rel, locale=None)
+                l10n = File(l10npath, rel, locale=locale)
+                cc = ContentComparer(quiet=quiet)
+                observers = []
+                for s in specs:
+                    o = Observer(quiet=quiet, filter=build(s).filter) if s is not None else Observer(quiet=quiet)
+                    observers.append(o)
+                    cc.observers.append(o)
+                flog = []
+                orig_notify = cc.observers.notify
+
+                def fnotify(cat, file, data, _o=orig_notify, _l=flog):
+                    rv = _o(cat, file, data)
+                    _l.append((cat, data, rv))
+                    return rv
+                cc.observers.notify = fnotify
+                with contextlib.redirect_stdout(io.StringIO()):
+                    if what == "add":
+                        cc.add(ref, l10n, mergepath)
+                    else:
+                        cc.remove(ref, l10n, mergepath)
+                want = "missingFile" if what == "add" else "obsoleteFile"
+                if [x[:2] for x in flog] != [(want, None)]:
+                    msgs.append("%s: notifications %r" % (what, flog))
+                rvl = ACT.get(flog[0][2], "?") if flog else "?"
+                dets = []
+                for o in [cc.observers] + observers:
+                    dets.append(["%s:r%s" % (CAT_CODE[list(d.keys())[0]], ACT.get(list(d.values())[0], "?")) for d in o.details[l10n]])
+
+                def fobs(o, dl):
+                    s_ = o.summary.get(locale)
+                    sm = "-" if s_ is None else ":".join(str(s_[k]) for k in STAT_KEYS)
+                    return sm + ("!E" if o.error else "") + "[" + ",".join(dl) + "]"
+                parts.append("%s %s own=%s obs=%s" % (what, rvl, fobs(cc.observers, dets[0]),
+                                                      "|".join(fobs(o, d) for o, d in zip(observers, dets[1:]))))
+                fres[(quiet, what)] = (rvl, [o.summary.get(locale) for o in [cc.observers] + observers], dets)
+            fcanon[str(quiet)] = " ".join(parts)
+            flines[str(quiet)] = " ".join(["c14.filesq"] + head + [str(quiet)] + cfgt + [str(w.lidx[locale]), "0", enc(rel),
+                                                                                     str(n_ents), str(n_words)])
+        for quiet in range(1, 5):
+            for what in ("add", "remove"):
+                a, b = fres[(0, what)], fres[(quiet, what)]
+                if a[0] != b[0] or a[1] != b[1]:
+                    msgs.append("%s file at quiet=%d: verdict / summaries differ from quiet=0: %r %r vs %r %r" % (what, quiet, b[0], b[1], a[0], a[1]))
+                if any(len(x) > len(y) for x, y in zip(b[2], a[2])):
+                    msgs.append("%s file at quiet=%d: more details than at quiet=0" % (what, quiet))
+        if len(specs) == 1 and specs[0] is not None:
+            fv = ACT[ref_verdict(specs[0], fdesc, None)]
+            for quiet in range(5):
+                for what in ("add", "remove"):
+                    if fres[(quiet, what)][0] != fv:
+                        msgs.append("%s file at quiet=%d: verdict %s, the configuration's file verdict is %s" % (what, quiet, fres[(quiet, what)][0], fv))
+                sm = fres[(quiet, "add")][1][1]
+                counted = 0 if sm is None else sm["missing"]
+                exp_counted = n_ents if (fv != "i" and ref_verdict(specs[0], fdesc, "") != "ignore") else 0
+                if fv == "i" and counted:
+                    msgs.append("add file at quiet=%d: an ignored missing file is counted (%d strings)" % (quiet, counted))
+                elif counted != exp_counted:
+                    msgs.append("add file at quiet=%d: %d missing strings counted, expected %d" % (quiet, counted, exp_counted))
+        verdict_classes = len(set(per_obs)) if per_obs else len({x[2] for x in blog})
+        return {"fcanon": fcanon, "flines": flines,
+                "canon": {"%d%s" % (q, "m" if m else "n"): v for (q, m), v in canon.items()},
+                "lines": {str(q): l for q, l in lines.items()}, "oracle": msgs, "classes": verdict_classes,
+                "events": "".join(e[0] for e in evs), "verdicts": "".join(ACT.get(x[2], "?") for x in blog),
+                "impl": canon[(0, True)]}
+    finally:
+        shutil.rmtree(root, ignore_errors=True)
+
+
+# ------------------------------------------------------------------ round 4: real [[filters]] tables through TOMLParser
+def toml_str(s):
+    import json
+    return json.dumps(s)          # a JSON string is a valid TOML basic string (ASCII, \\ \" \n \t \uXXXX escapes)
+
+
+def toml_list(xs):
+    return "[" + ", ".join(toml_str(x) for x in xs) + "]"
+
+
+def toml_text(spec):
+    """the configuration node as a TOML file: locales, [env], [[paths]], [[filters]] (path as string or list,
+    key as string / list / re: forms, all actions), [[includes]], [[excludes]]"""
+    out = ['basepath = "."']
+    if spec["locales"] is not None:
+        out.append("locales = " + toml_list(spec["locales"]))
+    if spec.get("file_env"):
+        out.append("[env]")
+        for k, v in spec["file_env"].items():
+            out.append("    %s = %s" % (k, toml_str(v)))
+    for p in spec["paths"]:
+        out.append("[[paths]]")
+        out.append("    l10n = " + toml_str(pat_str(p["l10n"])))
+        if "locales" in p:
+            out.append("    locales = " + toml_list(p["locales"]))
+        if "reference" in p:        # plays no role in filter(); must not change a verdict
+            out.append("    reference = " + toml_str(p["reference"]))
+        if "test" in p:
+            out.append("    test = " + toml_list(p["test"]))
+    for r in spec["rules"]:
+        out.append("[[filters]]")
+        if r.get("path_is_list"):
+            out.append("    path = " + toml_list([pat_str(x) for x in r["path"]]))
+        else:
+            out.append("    path = " + toml_str(pat_str(r["path"])))
+        if "key" in r:
+            out.append("    key = " + (toml_list(r["key"]) if isinstance(r["key"], list) else toml_str(r["key"])))
+        out.append("    action = " + toml_str(r["action"]))
+    for field, lst in (("includes", spec["children"]), ("excludes", spec["excludes"])):
+        for c in lst:
+            out.append("[[%s]]" % field)
+            out.append("    path = " + toml_str(c["toml_rel"]))
+    return "\n".join(out) + "\n"
+
+
+def write_toml_tree(spec, path):
+    os.makedirs(os.path.dirname(path), exist_ok=True)
+    with open(path, "w", encoding="utf-8") as f:
+        f.write(toml_text(spec))
+    for c in spec["children"] + spec["excludes"]:
+        write_toml_tree(c, os.path.normpath(os.path.join(os.path.dirname(path), c["toml_rel"])))
+
+
+def toml_fix(spec, path, parser_env):
+    """root and effective environment of every node as TOMLParser sets them (set_root(basepath '.'),
+    processEnv: file [env], then the parser's env on top)"""
+    spec["root"] = os.path.dirname(path)
+    spec["env"] = dict(spec.get("file_env") or {}, **parser_env)
+    for c in spec["children"] + spec["excludes"]:
+        toml_fix(c, os.path.normpath(os.path.join(os.path.dirname(path), c["toml_rel"])), parser_env)
+
+
+def toml_case(spec, files, entities, parser_env):
+    """the configuration tree written as TOML files, parsed by the real TOMLParser; every (file, entity) query
+    answered by the parsed ProjectConfig; model: c14.filtert from the same dictionaries; oracle: reference
+    interpreter"""
+    from compare_locales.paths import TOMLParser
+    root = tempfile.mkdtemp(prefix="c14t-")
+    try:
+        spec = subst_root(spec, root)
+        files = subst_root(files, root)
+        top = root + "/l10n.toml"
+        toml_fix(spec, top, parser_env)
+        write_toml_tree(spec, top)
+        ne = len(entities)
+        nq = len(files) * ne
+        locales = sorted(all_locales_of(spec, {f["locale"] for f in files}))
+        paths = sorted({f["fullpath"] for f in files})
+        wm = WireM(locales, paths)
+        toks = ["c14.filtert"] + wm.universe() + wm.cfg(spec) + [str(nq)]
+        for q in range(nq):
+            f, e = files[q // ne], entities[q % ne]
+            toks += [str(wm.lidx[f["locale"]]), str(wm.pidx[f["fullpath"]]), "-" if e is None else enc(e)]
+        try:
+            cfg = TOMLParser().parse(top, env=dict(parser_env) if parser_env else None)
+        except Exception as ex:   # noqa
+            return {"implm": "B" + exc_letter(ex), "line_m": " ".join(toks), "oracle": [], "msg": "%s: %s" % (type(ex).__name__, ex)}
+        fobjs = [mkfile(f) for f in files]
+        res = []
+        for q in range(nq):
+            f, e = fobjs[q // ne], entities[q % ne]
+            try:
+                res.append(ACT.get(cfg.filter(f, e), "?"))
+            except Exception as ex:   # noqa
+                res.append(exc_letter(ex))
+        oracle = []
+        for q in range(nq):
+            f, e = files[q // ne], entities[q % ne]
+            if e is not None and "\n" in e:
+                continue
+            exp = ACT[ref_verdict(spec, f, e)]
+            if exp != res[q]:
+                oracle.append([q, exp, res[q], None])
+        nrules = sum(len(n["rules"]) for n in _nodes(spec))
+        return {"implm": "".join(res), "line_m": " ".join(toks), "oracle": oracle, "nrules": nrules,
+                "compiled": sum(len(n.rules) for n in cfg.configs)}
+    finally:
+        shutil.rmtree(root, ignore_errors=True)
+
+
+def _nodes(spec):
+    yield spec
+    for c in spec["children"] + spec["excludes"]:
+        yield from _nodes(c)
+
+
+# ------------------------------------------------------------------ round 4: the key text `_compile_rule` compiles
+def keytext_case(key, entities):
+    """the real `_compile_rule` on a rule with this key: the pattern text it compiled, and the answers of
+    `rule["key"].match(entity)`; the driver line carries the key as written and the TRANSLATION of the real pattern"""
+    import translate
+    from compare_locales.paths import ProjectConfig
+    rules = list(ProjectConfig(None)._compile_rule({"path": "/x/{locale}/**", "key": key, "action": "ignore"}))
+    assert len(rules) == 1
+    rx = rules[0]["key"]
+    answers = "".join("1" if rx.match(e) else "0" for e in entities)
+    w, _, _ = translate.wire_pattern(rx.pattern)
+    line = " ".join(["c14.keytext", enc(key)] + w.split() + [str(len(entities))] + [enc(e) for e in entities])
+    is_re = key.startswith("re:")
+    canon = "%s %s %s" % (enc(rx.pattern), "re" if is_re else "lit=1", answers)
+    # oracle: the documented meaning, written independently
+    exp = []
+    for e in entities:
+        if is_re:
+            exp.append("1" if re.match(key[3:], e) else "0")
+        else:
+            exp.append("1" if e == key else ("?" if e == key + "\n" else "0"))
+    bad = [i for i, (a, b) in enumerate(zip(answers, exp)) if b != "?" and a != b]
+    return {"line": line, "canon": canon, "pattern": rx.pattern, "oracle": bad, "answers": answers}
+
+
+# ------------------------------------------------------------------ round 4: legacy filter.py, graph guards, set_locales(deep)
+PY_WIRE = {"T": "T", "1": "T", "1.0": "T", "F": "F", "0": "F", "N": "N", "R0": "R", "R1": "R", "R2": "R",
+           "U": "U", "U2": "U", "O": "O", "O2": "O"}
+
+
+def py_outcome(code):
+    if code.startswith("s:"):
+        return code[2:]
+    if code == "R0":
+        raise ValueError("filter.py failed")
+    if code == "R1":
+        raise KeyboardInterrupt()
+    if code == "R2":
+        raise SystemExit(3)
+    return {"T": True, "F": False, "1": 1, "0": 0, "1.0": 1.0, "N": None, "U": [], "U2": {}, "O": 2, "O2": ("error",)}[code]
+
+
+def py_clause_holds(c, mod, path, entity):
+    if c["module"] != "*" and mod != (None if c["module"] == "-" else c["module"]):
+        return False
+    if c["path"] not in path:
+        return False
+    e = c["entity"]
+    if e == "*":
+        return True
+    if e == "+":
+        return entity is not None
+    if e == "-":
+        return entity is None
+    return entity == e[1:]            # "=key"
+
+
+def make_py(pyspec):
+    """a small generated legacy filter.py `test` function: the first clause that holds decides"""
+    def test(mod, path, entity=None):
+        for c in pyspec["clauses"]:
+            if py_clause_holds(c, mod, path, entity):
+                return py_outcome(c["out"])
+        return py_outcome(pyspec["default"])
+    return test
+
+
+def py_wire(code):
+    return ["s", enc(code[2:])] if code.startswith("s:") else [PY_WIRE[code]]
+
+
+def build_p(spec):
+    from compare_locales.paths import ProjectConfig
+    cfg = ProjectConfig(None)
+    cfg.set_root(".")            # a configuration without a file has no root, whatever the base path says
+    assert cfg.root is None
+    if spec.get("env"):
+        cfg.add_environment(**spec["env"])
+    if spec["locales"] is not None:
+        cfg.set_locales(list(spec["locales"]))
+    pds = []
+    for p in spec["paths"]:
+        d = {"l10n": pat_str(p["l10n"])}
+        if "locales" in p:
+            d["locales"] = list(p["locales"])
+        pds.append(d)
+    cfg.add_paths(*pds)
+    for step in spec["order"]:
+        if step == "r":
+            rds = []
+            for r in spec["rules"]:
+                d = {"action": r["action"]}
+                d["path"] = [pat_str(p) for p in r["path"]] if r.get("path_is_list") else pat_str(r["path"])
+                if "key" in r:
+                    d["key"] = list(r["key"]) if isinstance(r["key"], list) else r["key"]
+                rds.append(d)
+            cfg.add_rules(*rds)
+        elif spec.get("py") is not None:
+            cfg.set_filter_py(make_py(spec["py"]))
+    for c in spec["children"]:
+        cfg.add_child(build_p(c))
+    for e in spec["excludes"]:
+        cfg.exclude(build_p(e))
+    return cfg
+
+
+class WireP(Wire):
+    def cfg(self, spec):
+        env = spec.get("env", {})
+        out = ["P", self.locs(spec["locales"]), str(len(spec["paths"]))]
+        for p in spec["paths"]:
+            out += [enc_ints(self.cells(p["l10n"], env, 0)), self.locs(p.get("locales"))]
+        out.append(spec["order"] or ".")
+        out.append(str(len(spec["rules"])))
+        for r in spec["rules"]:
+            out += ["R", ACT[r["action"]]]
+            if r.get("path_is_list"):
+                out += ["L", str(len(r["path"]))] + [enc_ints(self.cells(p, env, 1)) for p in r["path"]]
+            else:
+                out += ["1", enc_ints(self.cells(r["path"], env, 1))]
+            if "key" not in r:
+                out.append("N")
+            elif isinstance(r["key"], list):
+                out += ["L", str(len(r["key"]))]
+                for k in r["key"]:
+                    out += self.rawkey(k)
+            else:
+                out += ["1"] + self.rawkey(r["key"])
+        py = spec.get("py")
+        if py is None:
+            out.append("-")
+        else:
+            out += ["Y"] + py_wire(py["default"]) + [str(len(py["clauses"]))]
+            for c in py["clauses"]:
+                e = c["entity"]
+                out += ["*" if c["module"] == "*" else ("-" if c["module"] == "-" else enc(c["module"])), enc(c["path"]),
+                        e if e in ("*", "+", "-") else enc(e[1:])] + py_wire(c["out"])
+        out.append(str(len(spec["children"])))
+        for c in spec["children"]:
+            out += self.cfg(c)
+        out.append(str(len(spec["excludes"])))
+        for e in spec["excludes"]:
+            out += self.cfg(e)
+        return out
+
+
+class _Raise(Exception):
+    def __init__(self, letter):
+        self.letter = letter
+
+
+def ref_py(pyspec, mod, path, entity):
+    """documented behaviour of a legacy filter.py result: True/"error" -> error, False/"ignore" -> ignore,
+    "report"/"warning" -> warning, None -> None; a callable that raises counts as error; anything else is rejected
+    (AssertionError; TypeError for an unhashable value)"""
+    code = pyspec["default"]
+    for c in pyspec["clauses"]:
+        if py_clause_holds(c, mod, path, entity):
+            code = c["out"]
+            break
+    if code.startswith("s:"):
+        t = code[2:]
+        if t in ("error", "ignore", "warning"):
+            return t
+        if t == "report":
+            return "warning"
+        raise _Raise("A")
+    kind = PY_WIRE[code]
+    if kind in ("T", "R"):
+        return "error"
+    if kind == "F":
+        return "ignore"
+    if kind == "N":
+        return None
+    raise _Raise("T" if kind == "U" else "A")
+
+
+def ref_public_p(spec, file, entity):
+    """the public filter of a configuration that may carry a legacy callable: locale test, then the callable if there
+    is one (rules, included and excluded configurations are then not consulted), else the rule semantics"""
+    if file["locale"] is None or not ref_has_locale(spec, file["locale"]):
+        return "ignore"
+    if spec.get("py") is not None and "p" in spec["order"]:
+        return ref_py(spec["py"], file.get("module"), file["file"], entity)
+    return ref_inner_p(spec, file, entity) or "ignore"
+
+
+def ref_inner_p(spec, file, entity):
+    for ex in spec["excludes"]:
+        if ref_public_p(ex, file, None) == "error":
+            return None
+    env = spec.get("env", {})
+    results = [ref_inner_p(c, file, entity) for c in spec["children"]]      # an included configuration's callable is dead
+    covered = any(("locales" not in p or file["locale"] in p["locales"])
+                  and ref_path_match(p["l10n"], env, file["locale"], file["fullpath"]) for p in spec["paths"])
+    if covered:
+        own = "error"
+        for rule in (spec["rules"] if "r" in spec["order"] else []):
+            if ref_rule_applies(rule, env, file, entity):
+                own = rule["action"]
+        results.append(own)
+    return max(results, key=lambda a: SEV[a], default=None)
+
+
+def apply_posts(spec, posts):
+    import copy
+    spec = copy.deepcopy(spec)
+
+    def deep(s, ls):
+        s["locales"] = None if ls is None else list(ls)
+        for c in s["children"]:
+            deep(c, ls)
+    for kind, ls in posts:
+        if kind == "D":
+            deep(spec, ls)
+        else:
+            spec["locales"] = None if ls is None else list(ls)
+    return spec
+
+
+def must_fail_build(spec):
+    """does the documented contract forbid this object graph?  rules and a legacy callable on one configuration;
+    an included configuration that declares excludes; an excluded configuration that (or an included one of which)
+    declares excludes"""
+    def any_excl(s):
+        return bool(s["excludes"]) or any(any_excl(c) for c in s["children"])
+    if spec.get("py") is not None and "p" in spec["order"] and "r" in spec["order"] and (
+            spec["rules"] or spec["order"].index("p") < spec["order"].index("r")):
+        return True
+    if any(c["excludes"] for c in spec["children"]) or any(any_excl(e) for e in spec["excludes"]):
+        return True
+    return any(must_fail_build(c) for c in spec["children"] + spec["excludes"])
+
+
+def filterp_case(spec, files, entities, posts):
+    ne = len(entities)
+    nq = len(files) * ne
+    locales = sorted(all_locales_of(spec, {f["locale"] for f in files if f["locale"] is not None}
+                                    | {l for _, ls in posts for l in (ls or [])}))
+    paths = sorted({f["fullpath"] for f in files})
+    w = WireP(locales, paths)
+    toks = ["c14.filterp"] + w.universe() + w.cfg(spec) + [str(len(posts))]
+    for kind, ls in posts:
+        toks += [kind, w.locs(ls)]
+    toks.append(str(nq))
+    for q in range(nq):
+        f, e = files[q // ne], entities[q % ne]
+        toks += [str(w.lidx[f["locale"]]), str(w.pidx[f["fullpath"]]), "-" if f.get("module") is None else enc(f["module"]),
+                 enc(f["file"]), "-" if e is None else enc(e)]
+    line = " ".join(toks)
+    oracle = []
+    try:
+        cfg = build_p(spec)
+    except Exception as ex:   # noqa
+        letter = {"AssertionError": "A", "ExcludeError": "E"}.get(type(ex).__name__, "X")
+        if not must_fail_build(spec):
+            oracle.append([-1, "built", "B" + letter])
+        return {"impl": "B" + letter, "line": line, "oracle": oracle, "same": []}
+    if must_fail_build(spec):
+        oracle.append([-1, "ExcludeError/AssertionError", "built"])
+    for kind, ls in posts:
+        cfg.set_locales(None if ls is None else list(ls), deep=(kind == "D"))
+    eff = apply_posts(spec, posts)
+    from compare_locales.paths import File
+    res = []
+    for q in range(nq):
+        f, e = files[q // ne], entities[q % ne]
+        fo = File(f["fullpath"], f["file"], module=f.get("module"), locale=f["locale"])
+        try:
+            rv = cfg.filter(fo, e)
+            got = "N" if rv is None else ACT.get(rv, "?")
+        except AssertionError:
+            got = "A"
+        except TypeError:
+            got = "T"
+        except BaseException as ex:   # noqa  (a KeyboardInterrupt / SystemExit of the generated callable that escaped filter_)
+            got = "X"
+        res.append(got)
+        try:
+            ev = ref_public_p(eff, f, e)
+            exp = "N" if ev is None else ACT[ev]
+        except _Raise as r_:
+            exp = r_.letter
+        if exp != got and not (e is not None and "\n" in e):
+            oracle.append([q, exp, got])
+    # ProjectConfig.same: "equality test, ignoring locales" — a rebuilt identical configuration is the same, also
+    # after a set_locales; a configuration with one more rule / path is not
+    same = []
+    try:
+        twin = build_p(spec)
+        if not (cfg.same(twin) and twin.same(cfg)):
+            same.append("same() is False for a configuration built from the same specification (locales changed: %r)" % (posts,))
+        if cfg.same(object()) is not False:
+            same.append("same() accepts an object of another class")
+        import copy
+        if "r" in spec["order"] and "p" not in spec["order"]:
+            other = copy.deepcopy(spec)
+            other["rules"] = other["rules"] + [{"path": ["/nowhere/", ["var", "locale"], "/x"], "action": "ignore"}]
+            if cfg.same(build_p(other)):
+                same.append("same() is True although the other configuration has one more rule")
+        other = copy.deepcopy(spec)
+        other["paths"] = other["paths"] + [{"l10n": ["/nowhere/", ["var", "locale"], "/", ["starstar", ""]]}]
+        if cfg.same(build_p(other)):
+            same.append("same() is True although the other configuration has one more path")
+        if spec["children"]:
+            other = copy.deepcopy(spec)
+            other["children"] = other["children"][:-1]
+            if cfg.same(build_p(other)):
+                same.append("same() is True although the other configuration includes one configuration less")
+            other = copy.deepcopy(spec)
+            other["children"][-1]["paths"] = other["children"][-1]["paths"] + [{"l10n": ["/nowhere/x"]}]
+            if cfg.same(build_p(other)):
+                same.append("same() is True although an included configuration differs")
+    except Exception as ex:   # noqa
+        same.append("same() probe raised %s: %s" % (type(ex).__name__, ex))
+    return {"impl": "".join(res), "line": line, "oracle": oracle, "same": same}
